@@ -13,10 +13,13 @@ Local Open Scope N_scope.
 
 Ltac Zify.zify_post_hook ::= Z.div_mod_to_equations.
 
+(** a constant TermArg argument of a leaf named object: an integer constant or a string *)
+Inductive targ : Type := TInt (d : decl) | TStr (b : list N).
+
 Inductive item : Type :=
 | IName (d : decl)
 | IBlk (bk : bkind) (k seg : N) (fa : list N) (body : list item)
-| ILeaf (lk : lkind) (seg : N) (fa : list N) (ta : list decl).
+| ILeaf (lk : lkind) (seg : N) (fa : list N) (ta : list targ).
 
 (** Device and Method blocks (the fragments F1 / F2) *)
 Definition IDev (k seg : N) (body : list item) : item := IBlk BDev k seg [] body.
@@ -28,8 +31,11 @@ Definition blo (bk : bkind) : N := lenN (enc_op (bk_op bk)).
 Definition lfx (lk : lkind) (fa : list N) : fxs := combine (lk_ws lk) fa.
 Definition llo (lk : lkind) : N := lenN (enc_op (lk_op lk)).
 (** the constant TermArg arguments of a leaf object (only opcode and value of the [decl] are used) *)
-Definition enc_ta (ta : list decl) : list N := flat_map enc_const ta.
 Definition cst_okb (d : decl) : bool := is_constb (d_op d) && (d_v d <? 2 ^ (N.of_nat (const_bytes (d_op d)) * 8)).
+Definition str_okb (b : list N) : bool := forallb (fun c => (1 <=? c) && (c <=? 127)) b.
+Definition enc_targ (a : targ) : list N := match a with TInt d => enc_const d | TStr b => OP_STRING :: b ++ [0] end.
+Definition targ_okb (a : targ) : bool := match a with TInt d => cst_okb d | TStr b => str_okb b end.
+Definition enc_ta (ta : list targ) : list N := flat_map enc_targ ta.
 
 Fixpoint enc_item (it : item) : list N :=
   match it with
@@ -76,7 +82,7 @@ Fixpoint item_okb (it : item) : bool :=
       pkglen_okb k (k + lenN (seg_bytes seg ++ enc_fx (bfx bk fa) ++ flat_map enc_item body)) && forallb item_okb body
   | ILeaf lk seg fa ta =>
       lead_okb (seg_lead seg) && (seg <? 0x100000000) && Nat.eqb (length fa) (length (lk_ws lk)) && fx_okb (lfx lk fa) &&
-      Nat.eqb (length ta) (lk_nt lk) && forallb cst_okb ta
+      Nat.eqb (length ta) (lk_nt lk) && forallb targ_okb ta
   end.
 
 (** ---- the trees ---- *)
@@ -108,8 +114,11 @@ Definition lf_pay (lk : lkind) (off : N) (nm : Name) : pay := mkPay (lk_op lk) (
 Definition lhd_pays (lk : lkind) (off : N) (fa : list N) : list pay :=
   pth_pay (off + llo lk) :: fx_pays h (off + llo lk + 4) (lfx lk fa).
 Definition ta_off (lk : lkind) (off : N) (fa : list N) : N := off + llo lk + 4 + lenN (enc_fx (lfx lk fa)).
-Fixpoint cst_pays (off : N) (ta : list decl) : list pay :=
-  match ta with [] => [] | d :: r => cst_pay off d :: cst_pays (off + lenN (enc_const d)) r end.
+Definition str_pay (off : N) (b : list N) : pay :=
+  mkPay aml_pOpStringPrefix 7 h name_zero off 0 (Some (VBytes tbl (mkSlice (Some (off + 1)) (lenN b)))).
+Definition targ_pay (off : N) (a : targ) : pay := match a with TInt d => cst_pay off d | TStr b => str_pay off b end.
+Fixpoint cst_pays (off : N) (ta : list targ) : list pay :=
+  match ta with [] => [] | a :: r => targ_pay off a :: cst_pays (off + lenN (enc_targ a)) r end.
 Definition nlf (lk : lkind) (fa : list N) : N := N.of_nat (length (lfx lk fa)).
 
 (** after the first pass: the constant is the next sibling of the Name object; names are not set *)
@@ -218,7 +227,7 @@ Qed.
 Lemma len_lhd_pays h tbl lk off fa : length (lhd_pays h tbl lk off fa) = S (length (lfx lk fa)).
 Proof. unfold lhd_pays. cbn [length]. rewrite len_fx_pays. reflexivity. Qed.
 
-Lemma len_cst_pays h off ta : length (cst_pays h off ta) = length ta.
+Lemma len_cst_pays h tbl off ta : length (cst_pays h tbl off ta) = length ta.
 Proof. revert off. induction ta as [|d r IH]; intros off; cbn [cst_pays length]; [reflexivity|rewrite IH; reflexivity]. Qed.
 
 Lemma isz_pos it : (2 <= isz it)%nat.
